@@ -80,6 +80,9 @@ func c16Streams(tier string) []c16Stream {
 		// a command that turns the connection into a stream, followed by further commands
 		{Name: "subscribe-then-commands", Data: append(append(append(respCmd("SUBSCRIBE", "c16a"), respCmd("PING", "hello")...), respCmd("SUBSCRIBE", "c16b")...), respCmd("PING")...), HTTP: false},
 		{Name: "psubscribe-then-telnet", Data: []byte("PSUBSCRIBE c16*\r\nPING hello\r\nUNSUBSCRIBE nope\r\n"), HTTP: false},
+		// a one-word command over HTTP, with and without a query string
+		{Name: "http-server-plain", Data: []byte("GET /HEALTHZ HTTP/1.1\r\nHost: x\r\n\r\n"), HTTP: true},
+		{Name: "http-server-query", Data: []byte("GET /HEALTHZ?pretty=1 HTTP/1.1\r\nHost: x\r\n\r\n"), HTTP: true, SameAs: "http-server-plain"},
 		// a command larger than a megabyte followed by pipelined commands (whatever the reader keeps between reads must survive)
 		{Name: "value-1.3M-then-pipeline", Sparse: true, Data: append(append(append(respCmd("SET", "pk", "huge", "STRING", strings.Repeat("0123456789abcdef", 82000)), respCmd("PING", "after")...), respCmd("GET", "pk", "a")...), respCmd("PING")...)},
 		// valid commands followed by malformed input once the connection is a subscription / a monitor
@@ -134,7 +137,7 @@ func c16Send(x *Exec, addr string, data []byte, cuts []int) string {
 }
 
 func checkC16Cuts(job *Job, res *Result) {
-	res.Rule = "SEQ over inputs x cuts: 32 streams (LF-terminated telnet streams must be answered like their CRLF twins, a 5 KB inline command like its RESP twin, a 5 KB URL like a short one) (incl. valid-then-malformed and stream-switching commands followed by further commands) x every 2-way cut (long streams: every cut within 80 bytes of a command / read-buffer boundary plus a stride), every 3-way cut for streams <= 120 bytes (thorough <= 200), byte-at-a-time for streams <= 400 bytes; distinct = distinct (stream, segmentation class)"
+	res.Rule = "SEQ over inputs x cuts: 34 streams (LF-terminated telnet streams must be answered like their CRLF twins, a 5 KB inline command like its RESP twin, a 5 KB URL like a short one) (incl. valid-then-malformed and stream-switching commands followed by further commands) x every 2-way cut (long streams: every cut within 80 bytes of a command / read-buffer boundary plus a stride), every 3-way cut for streams <= 120 bytes (thorough <= 200), byte-at-a-time for streams <= 400 bytes; distinct = distinct (stream, segmentation class)"
 	res.Assumptions = append(res.Assumptions, "each stream is replayed on a fresh connection of one server; its commands are idempotent so the state is the same for every replay", "the elapsed member of JSON replies is blanked")
 	streams := c16Streams(job.Tier)
 	caseNo := 0
